@@ -459,8 +459,9 @@ func (vs *ValidatorStore) GetEndBlockUpdate(ctx *ValidatorContext, req types.Req
 				}
 			}
 
-			// delete validator who's power is 0
-			if validator.Power <= 0 {
+			// delete validator who's power is 0, unless it was staked again in this block
+			current, _ := vs.Get(validator.Address)
+			if validator.Power <= 0 && current != nil && current.Power <= 0 {
 				vKey := append(vs.prefix, validator.Address.Bytes()...)
 				fmt.Println("Deleting :", validator.Address.String())
 				//TODO: validator delete will not properly delete the item because of state implementation
